@@ -4,8 +4,11 @@ pub trait Encoder<I>: Sized {
     type Error: From<io::Error>;
     spec fn enc(item: I) -> Seq<u8>;
 
+    /// an encoder only APPENDS to `dst` (also when it fails half-way): assumption A-ENC about user codecs, proved of
+    /// the crate's own codecs
     fn encode(&mut self, item: I, dst: &mut BytesMut) -> (r: Result<(), Self::Error>)
-        ensures r is Ok ==> final(dst)@ == old(dst)@ + Self::enc(item);
+        ensures r is Ok ==> final(dst)@ == old(dst)@ + Self::enc(item),
+                old(dst)@.is_prefix_of(final(dst)@);
 }
 
 /// tokio_util::codec::Decoder as a state transformer: `dec(c, b)` / `dec_eof(c, b)` give the result, the buffer that
